@@ -10,7 +10,7 @@ NOT_APPLICABLE = {f"C{n:02d}": NOT_YET for n in range(1, 21)}
 
 LEVEL_TEXT = {
     "C15": {
-        "text": "Theorems in Coq over the vector model of TracedValues and the conversion tables of TracedValue: every reachable collection is the denotation of its insertion history (distinct names, first-insertion order, latest value); insert/get/len/extend/collect/deserialize refine that specification; v == x iff the typed accessor succeeds with an equal result; 64-bit views succeed exactly when the number fits. Proved for all operation sequences and all values, unbounded. The model is tied to tunnel/src/values.rs and value.rs by a correspondence run on every check. Every op sequence is also run with borrowed keys (TracedValues<&str>) cut from one buffer so that a name that is a prefix of another starts at the same address; a deviating run is the one judged.",
+        "text": "Theorems in Coq over the vector model of TracedValues and the conversion tables of TracedValue: every reachable collection is the denotation of its insertion history (distinct names, first-insertion order, latest value); insert/get/len/extend/collect/deserialize refine that specification; v == x iff the typed accessor succeeds with an equal result; 64-bit views succeed exactly when the number fits. Proved for all operation sequences and all values, unbounded. The model is tied to tunnel/src/values.rs and value.rs by a correspondence run on every check. Every op sequence is also run with borrowed keys (TracedValues<&str>) cut from one buffer so that a name that is a prefix of another starts at the same address; a deviating run is the one judged. Whenever two runs that must behave alike differ (owned / borrowed keys), both are judged and the case gets the worse verdict.",
         "design_ref": "DESIGN.md section 7, C15",
         "note": "Trusted: Coq kernel + vm_compute; the hand-written model (tied by correspondence on ~8k cases per quick run: exhaustive short insert sequences, random op sequences incl. duplicate-key JSON, full boundary grid of values x typed constants); harness; f64 hardware comparison modelled on bit patterns. No axioms.",
         "technique": "Coq proof (induction over histories, refinement to a history specification) + vm_compute correspondence against the Rust implementation",
